@@ -13,8 +13,15 @@
   * `infra cfg`         `Interface.infrastructure_info()` per station (interface.py:436-460,
                         charging_network.py:66-96): voltage, max/min pilot, continuity, allowable pilots.
                         A function of the static configuration ONLY.
+  * `infraInfo cfg nd`  EVERY field of `InfrastructureInfo` (interface.py:457-483): constraint matrix,
+                        limits, phases, voltages, constraint ids, station ids + the per-station part.
+                        `nd : NetDesc` carries what `Sim.Cfg` does not (phase angles, the `add_constraint`
+                        calls); the constraint containers are built by the network model of C12
+                        (`Network.Net.register` / `addConstraint`), a constraint-free network is the
+                        0 x N view of the repaired code (F3).
 -/
 import AcnModel.Sim
+import AcnModel.Network
 
 namespace Acn.Sim
 open Acn Acn.EventCore
@@ -61,6 +68,36 @@ def infra (cfg : Cfg K) : List (StationInfo K) :=
   cfg.stations.map fun st =>
     { id := st.id, voltage := st.voltage, maxPilot := Evse.maxRate st.kind, minPilot := Evse.minRate st.kind,
       continuous := Evse.isContinuous st.kind, allowable := Evse.allowable st.kind }
+
+/-- what `Sim.Cfg` does not carry about the network: the phase angle given to every `register_evse`
+    call (registration order) and the `add_constraint(current, limit, name)` calls, in order -/
+structure NetDesc (K : Type) where
+  phases : List K
+  constraints : List (Network.Current K × K × Option String)
+
+/-- the constraint containers of the `ChargingNetwork` the simulator was built with
+    (simcase.build_sim: all `register_evse` calls, then the `add_constraint` calls) -/
+def netOf (cfg : Cfg K) (nd : NetDesc K) : Network.Net K :=
+  Network.Net.run (Network.Net.run Network.Net.init (cfg.stations.map fun st => Network.Op.register st.id))
+    (nd.constraints.map fun c => Network.Op.add c.1 c.2.1 c.2.2)
+
+/-- `InfrastructureInfo`, every field (interface.py:176-187) -/
+structure Infra (K : Type) where
+  constraintMatrix : List (List K)       -- M rows of length N
+  constraintLimits : List K
+  phases : List K
+  voltages : List K
+  constraintIds : List String
+  stationIds : List String
+  stations : List (StationInfo K)        -- max_pilot, min_pilot, allowable_pilots, is_continuous
+
+/-- `Interface._infrastructure_info()` (interface.py:457-483); `constraint_matrix is None` is handed
+    out as the 0 x N matrix (repaired F3) -/
+def infraInfo (cfg : Cfg K) (nd : NetDesc K) : Infra K :=
+  let n := netOf cfg nd
+  { constraintMatrix := n.matrix.getD [], constraintLimits := n.magnitudes, phases := nd.phases,
+    voltages := cfg.stations.map (·.voltage), constraintIds := n.index, stationIds := n.stations,
+    stations := infra cfg }
 
 end
 end Acn.Sim
